@@ -284,6 +284,7 @@ class PropertyCheck:
     assumptions = []
     trusted_extra = []
     technique = "Lean 4 proof over hand model + differential correspondence"
+    claimed = False             # set True once the check is reviewed: only then it is listed in MANIFEST.checks
     level_text = ""
     level_note = ""
     design_ref = "DESIGN.md section 3"
